@@ -89,6 +89,8 @@ def schedOf (st : St) (log : List Ev) : List Act :=
   let owner (m : String) : String := ((st.groups.find? (fun g => g.2 == m)).map (·.1)).getD m
   log.filterMap (fun e =>
     match e with
+    | .start _ => some .main
+    | .thread _ => some .main
     | .write m _ => some (.step (owner m))
     | .firstpoll m => some (.step (owner m))
     | .rounddone t => some (.step t)
